@@ -40,7 +40,15 @@ def local_from(fn, pred):
     return out
 
 
+def vts_roles(repo: Repo):
+    """(queue, clock, lock, enabled-flag) attribute names of VirtualTimeScheduler, by how __init__ fills them."""
+    from .attr_roles import roles
+    r = roles(repo, V, "VirtualTimeScheduler")
+    return r.by_call("PriorityQueue"), r.by_param_index(0), r.by_call("Lock", "RLock", "threading.Lock", "threading.RLock"), r.by_const(False, only=True)
+
+
 def check(repo: Repo, rep: Report) -> None:
+    Q, CLK, LK, _EN = vts_roles(repo)
     rep.explanation = (
         "Structural clauses of virtual-time ordering: ScheduledItem orders by due time only and the priority queue "
         "breaks ties with a counter incremented on every enqueue (stable FIFO among equal due times) over a heapq heap; "
@@ -93,8 +101,8 @@ def check(repo: Repo, rep: Report) -> None:
     ok = any(isinstance(s.node, ast.Return) and u(s.node.value) == "self.items[0][0]" for s in sites(peek))
     rep.ob("O2-stable-queue", peek, "return self.items[0][0]", ok, "peek does not return the heap minimum")
     sa = repo.fn(V, "VirtualTimeScheduler.schedule_absolute")
-    ok = any(isinstance(s.node, ast.Call) and dotted(s.node.func) == "self._queue.enqueue" for s in sites(sa))
-    rep.ob("O2-stable-queue", sa, "self._queue.enqueue(si)", ok, "schedule_absolute does not enqueue into the priority queue")
+    ok = any(isinstance(s.node, ast.Call) and dotted(s.node.func) == f"self.{Q}.enqueue" for s in sites(sa))
+    rep.ob("O2-stable-queue", sa, f"self.{Q}.enqueue(si)", ok, "schedule_absolute does not enqueue into the priority queue")
     # O3: TestScheduler / HistoricalScheduler do not re-time requests
     ts = repo.opt_fn("reactivex/testing/testscheduler.py", "TestScheduler.schedule_absolute")
     if ts is not None:
@@ -125,16 +133,16 @@ def check(repo: Repo, rep: Report) -> None:
     # O4: queue guarded by the lock
     from ..engines.locks import ClassLocks
     vcls = repo.fn(V, "VirtualTimeScheduler")
-    cl = ClassLocks(repo, vcls, ["self._lock"], ["_queue"])
+    cl = ClassLocks(repo, vcls, [f"self.{LK}"], [f"{Q}"])
     for m in cl.methods:
         if m.name == "__init__":
             continue
         for a in cl.accesses(m):
-            rep.ob("O4-queue-guarded", m, f"{m.name}: {a.mode} self._queue in `{short(a.site.stmt, 50)}`", a.locked,
+            rep.ob("O4-queue-guarded", m, f"{m.name}: {a.mode} self.{Q} in `{short(a.site.stmt, 50)}`", a.locked,
                    "the priority queue is used outside the scheduler lock: a concurrent schedule can be lost or an item run twice")
     adv_ = repo.fn(V, "VirtualTimeScheduler.advance_to")
-    pk = [s for s in sites(adv_) if isinstance(s.node, ast.Call) and dotted(s.node.func) == "self._queue.peek"]
-    dq = [s for s in sites(adv_) if isinstance(s.node, ast.Call) and dotted(s.node.func) == "self._queue.dequeue"]
+    pk = [s for s in sites(adv_) if isinstance(s.node, ast.Call) and dotted(s.node.func) == f"self.{Q}.peek"]
+    dq = [s for s in sites(adv_) if isinstance(s.node, ast.Call) and dotted(s.node.func) == f"self.{Q}.dequeue"]
     def with_of(s):
         n = s.node
         par = adv_.module.parents
@@ -151,7 +159,7 @@ def check(repo: Repo, rep: Report) -> None:
     n_writes = 0
     for mname in ("start", "advance_to", "sleep"):
         m = repo.fn(V, f"VirtualTimeScheduler.{mname}")
-        items = local_from(m, lambda e: u(e) in ("self._queue.peek()", "self._queue.dequeue()"))
+        items = local_from(m, lambda e: u(e) in (f"self.{Q}.peek()", f"self.{Q}.dequeue()"))
         targets = local_from(m, lambda e: isinstance(e, ast.Call) and dotted(e.func) == "self.to_datetime")
         for s in sites(m):
             n = s.node
@@ -159,9 +167,9 @@ def check(repo: Repo, rep: Report) -> None:
             val = None
             if isinstance(n, (ast.Assign, ast.AnnAssign)) and n.value is not None:
                 tg = n.targets if isinstance(n, ast.Assign) else [n.target]
-                if any(u(t) == "self._clock" for t in tg):
+                if any(u(t) == f"self.{CLK}" for t in tg):
                     is_w, val = True, n.value
-            if isinstance(n, ast.AugAssign) and u(n.target) == "self._clock":
+            if isinstance(n, ast.AugAssign) and u(n.target) == f"self.{CLK}":
                 n_writes += 1
                 pos = isinstance(n.op, ast.Add) and (
                     isinstance(n.value, ast.Constant) and isinstance(n.value.value, (int, float)) and n.value.value > 0
@@ -201,26 +209,26 @@ def check(repo: Repo, rep: Report) -> None:
     rep.require(n_writes >= 6, f"clock writes found ({n_writes})")
     # A1
     adv = repo.fn(V, "VirtualTimeScheduler.advance_to")
-    items = local_from(adv, lambda e: u(e) in ("self._queue.peek()", "self._queue.dequeue()"))
+    items = local_from(adv, lambda e: u(e) in (f"self.{Q}.peek()", f"self.{Q}.dequeue()"))
     targets = local_from(adv, lambda e: isinstance(e, ast.Call) and dotted(e.func) == "self.to_datetime")
     rep.require(items and targets, "item / target locals in advance_to")
-    deqs = [s for s in sites(adv) if isinstance(s.node, ast.Call) and dotted(s.node.func) == "self._queue.dequeue"]
+    deqs = [s for s in sites(adv) if isinstance(s.node, ast.Call) and dotted(s.node.func) == f"self.{Q}.dequeue"]
     rep.require(deqs, "dequeue in advance_to")
     for s in deqs:
         ops = [o for it in items for tg in targets for o in guard_between(s.ctx, f"{it}.duetime", tg)]
         rep.ob("A1-advance-bounds", adv, "dequeue only under item.duetime <= target", "<=" in ops,
                f"advance_to removes an item without `item.duetime <= target` dominating (found {ops}): it runs actions "
                f"beyond the target or skips the ones due exactly at the target")
-        peeks = [x for x in sites(adv) if isinstance(x.node, ast.Assign) and u(x.node.value) == "self._queue.peek()"
+        peeks = [x for x in sites(adv) if isinstance(x.node, ast.Assign) and u(x.node.value) == f"self.{Q}.peek()"
                  and u(x.node.targets[0]) in items and x.index < s.index and x.ctx.loops == s.ctx.loops]
-        rep.ob("A1-advance-bounds", adv, "item = self._queue.peek() precedes the dequeue in the same iteration", bool(peeks),
+        rep.ob("A1-advance-bounds", adv, f"item = self.{Q}.peek() precedes the dequeue in the same iteration", bool(peeks),
                "the item that is tested is not the one that is removed")
     finals = [s for s in sites(adv) if not s.ctx.loops and isinstance(s.node, ast.Assign)
-              and any(u(t) == "self._clock" for t in s.node.targets)]
+              and any(u(t) == f"self.{CLK}" for t in s.node.targets)]
     ok = bool(finals) and all(any(isinstance(x, ast.Name) and x.id in targets for x in ast.walk(s.node.value)) for s in finals)
     rep.ob("A1-advance-bounds", adv, "clock = target after the loop", ok, "advance_to does not leave the clock at the target")
-    kinds_ = {p_ for s in finals for e, p_ in s.ctx.guards if isinstance(e, ast.Call) and call_name(e) == "isinstance" and u(e.args[0]) == "self._clock"}
-    unguarded_ = any(not [1 for e, p_ in s.ctx.guards if isinstance(e, ast.Call) and call_name(e) == "isinstance" and u(e.args[0]) == "self._clock"] for s in finals)
+    kinds_ = {p_ for s in finals for e, p_ in s.ctx.guards if isinstance(e, ast.Call) and call_name(e) == "isinstance" and u(e.args[0]) == f"self.{CLK}"}
+    unguarded_ = any(not [1 for e, p_ in s.ctx.guards if isinstance(e, ast.Call) and call_name(e) == "isinstance" and u(e.args[0]) == f"self.{CLK}"] for s in finals)
     rep.ob("A1-advance-bounds", adv, f"clock = target for both clock kinds ({'any' if unguarded_ else sorted(kinds_)})", unguarded_ or kinds_ == {True, False},
            "advance_to sets the clock to the target for one clock kind only: on the other kind (numeric TestScheduler / datetime "
            "HistoricalScheduler) the clock stays at the last item's due time and `now` lags behind the time advanced to")
